@@ -72,6 +72,7 @@ class SymbolicPath:
         self.prefix = list(prefix)
         self.taken = []
         self.pending = []
+        self.bound_hyps = []   # hypotheses about a variable that is about to be BOUND by a quantifier (see bound())
         self.session = session
         self.path_id = path_id
         self.solver = z3.Solver()
@@ -105,12 +106,42 @@ class SymbolicPath:
             raise Infeasible()
 
     # ------------------------------------------------------------------ forking
+    def bound(self, hyp):
+        """context: what is evaluated inside is a term over a variable that a quantifier will bind (the j-th element of a sequence of symbolic
+        length, for every j in range).  A path decision about such a variable would be a statement about one free constant, while the term is
+        used for every j: so inside this context a decision must follow from the path and the hypotheses (it then holds for every j), a
+        conditional EXPRESSION becomes an if-then-else term, and anything else is outside the accepted subset."""
+        import contextlib
+
+        @contextlib.contextmanager
+        def cm():
+            self.bound_hyps.append(to_z3(hyp))
+            try:
+                yield
+            finally:
+                self.bound_hyps.pop()
+        return cm()
+
+    def decide_bound(self, c):
+        """True / False if the condition is settled by path + hypotheses for every value of the bound variable, else None"""
+        hyp = z3.And(*self.bound_hyps)
+        can_t = self.feasible(z3.And(hyp, c))
+        can_f = self.feasible(z3.And(hyp, z3.Not(c)))
+        if can_t and can_f:
+            return None
+        return can_t or not can_f
+
     def branch(self, cond):
         c = z3.simplify(to_z3(cond))
         if z3.is_true(c):
             return True
         if z3.is_false(c):
             return False
+        if self.bound_hyps:
+            d = self.decide_bound(c)
+            if d is None:
+                raise Unsupported("a decision inside the element expression of a sequence of symbolic length depends on the element")
+            return d
         pos = len(self.taken)
         if pos < len(self.prefix):
             d = self.prefix[pos]
